@@ -1,4 +1,11 @@
-"""C13 - RPM name-epoch:version-release.arch strings are parsed back to their parts."""
+"""C13 - RPM name-epoch:version-release.arch strings are parsed back to their parts.
+
+The Lean model consists of pure functions: a result depends on the argument only and every call yields a fresh value.
+That the real `parse_nvra` / `Rpms._check_nevra` behave like that (no result object shared between calls, nothing a
+caller does to a returned dict leaks into a later call) is not a theorem but is OBSERVED on the real code by the
+`purity` probe below: call, snapshot, overwrite every key of the returned dict and clear it, call again with the same
+argument, require the un-mutated first answer again (kind 'result-aliased') and distinct objects (kind 'result-shared').
+The replay case carries the call sequence."""
 import hashlib, itertools, json, os
 import checklib
 from checklib import Prop, ROOT, guarded
@@ -36,6 +43,59 @@ def expected(a):
 
 def ascii_digits(s):
     return s != "" and all("0" <= c <= "9" for c in s)
+
+
+PURITY_SEQUENCE = ["r1 = f(s)", "first = deepcopy(r1)", "overwrite every key of every dict in r1 with 'MUTATED', then clear it",
+                   "r2 = f(s)", "second = deepcopy(r2)", "r3 = f(s)", "shared = (r2 is r3) or a dict inside r2 is the same object inside r3"]
+
+
+def mutable_parts(x):
+    """every dict / list reachable in a returned value (tuples are walked, not mutated)"""
+    out = []
+    if isinstance(x, dict):
+        out.append(x)
+        for v in list(x.values()):
+            out.extend(mutable_parts(v))
+    elif isinstance(x, (list, tuple)):
+        if isinstance(x, list):
+            out.append(x)
+        for v in x:
+            out.extend(mutable_parts(v))
+    return out
+
+
+def mutate_all(x):
+    for part in mutable_parts(x):
+        if isinstance(part, dict):
+            for k in list(part):
+                part[k] = "MUTATED"
+            part.clear()
+        else:
+            part[:] = ["MUTATED"]
+            del part[:]
+
+
+def purity_probe(f, s):
+    """the call sequence PURITY_SEQUENCE on the real function f"""
+    import copy
+    out = {"first": None, "second": None, "shared": False}
+    try:
+        r1 = f(s)
+        out["first"] = {"ok": checklib.canon(copy.deepcopy(r1))}
+    except Exception as e:  # noqa
+        out["first"] = checklib.err_class(e)
+        r1 = None
+    if r1 is not None:
+        mutate_all(r1)
+    try:
+        r2 = f(s)
+        out["second"] = {"ok": checklib.canon(copy.deepcopy(r2))}
+        r3 = f(s)
+        ids2 = set(id(p_) for p_ in mutable_parts(r2))
+        out["shared"] = bool(ids2 & set(id(p_) for p_ in mutable_parts(r3))) or (r2 is r3 and bool(mutable_parts(r2)))
+    except Exception as e:  # noqa
+        out["second"] = checklib.err_class(e)
+    return out
 
 
 def spec_split(s):
@@ -79,6 +139,8 @@ class C13(Prop):
             "EVERY string over {a,1,-,.,:,/} up to length 6 (quick) / 8 (thorough). Each case: real parse_nvra vs the Lean model "
             "(correspondence), parts recovered, canonical re-format + parse is a fixed point (Rpms._check_nevra); for raw/exhaustive "
             "strings the oracle is a regex-free reference decomposition (rsplit) wherever the string has the documented shape. "
+            "purity probe on a share of both streams (parse_nvra and Rpms._check_nevra): call, mutate every key of the "
+            "returned dict and clear it, call again, require the first answer and fresh objects; "
             "non-trivial = distinct case whose real parse succeeded")
     assumptions = ["CPython `re` is modelled by the list-of-successes engine (validated differentially on every case)",
                    "`int()` on a `\\d+` capture = positional decimal value with the generated digit table; ValueError beyond 4300 digits"]
@@ -201,15 +263,20 @@ class C13(Prop):
         for n in (1, 2, 19, 20, 4299, INT_LIMIT, INT_LIMIT + 1, 5000):
             yield {"op": "int", "args": {"s": "".join(rng.choice("0123456789") for _ in range(n))}}
             yield {"op": "int", "args": {"s": "".join(chr(rng.choice([0x30, 0x660, 0x6F0, 0x966, 0xFF10, 0x1D7CE, 0x1D7D8, 0x1D7F6]) + rng.randrange(10)) for _ in range(n))}}
+        for fn in ("parse_nvra", "Rpms._check_nevra"):
+            yield {"op": "purity", "args": {"fn": fn, "s": "glibc-common-0:2.17-78.el7.x86_64.rpm", "sequence": PURITY_SEQUENCE}}
         for s in ("", "-", "--.", "a-1-1", "a-1-1.rpm", "foo:bar", "a-1:-.", "a-:1-1.x", "a--1:1-1.x", "a-1-1.x\n", "a-1-1.x.rpm\n",
                   "a/-1-1.x", "/", "a-1-1.rpm.rpm", ".rpm", "a-1-1.x\n.rpm"):
             yield {"op": "parse_raw", "args": {"s": s}}
         n = budget if tier != "search" else budget
         for i in range(n):
-            if i % 4 == 3:
-                yield self.gen_raw(rng, i, tier)
-            else:
-                yield self.gen_domain(rng, i, tier)
+            c = self.gen_raw(rng, i, tier) if i % 4 == 3 else self.gen_domain(rng, i, tier)
+            yield c
+            if i % 8 in (1, 7):       # purity / freshness of results, on the same string (a share of both streams)
+                sarg = fmt(c["args"]) if c["op"] == "parse" else c["args"]["s"]
+                if len(sarg) <= 1500:
+                    yield {"op": "purity", "args": {"fn": "parse_nvra" if i % 16 < 8 else "Rpms._check_nevra", "s": sarg,
+                                                      "sequence": PURITY_SEQUENCE}}
         if tier != "search":
             for c in self.enum_cases(8 if tier == "thorough" else 6):
                 yield c
@@ -233,6 +300,9 @@ class C13(Prop):
             return {"strings": count, "parsed": len(items), "digest": hashlib.sha1(json.dumps(items, sort_keys=True).encode()).hexdigest()}
         if case["op"] == "int":
             return guarded(int, a["s"])
+        if case["op"] == "purity":
+            f = productmd.common.parse_nvra if a["fn"] == "parse_nvra" else (lambda x: list(productmd.rpms.Rpms()._check_nevra(x)))
+            return purity_probe(f, a["s"])
         s = fmt(a) if case["op"] == "parse" else a["s"]
         out = {"parse": guarded(productmd.common.parse_nvra, s), "canon": None, "reparse": None,
                "check": guarded(lambda: list(productmd.rpms.Rpms()._check_nevra(s)))}     # the key Rpms.add files the package under
@@ -258,6 +328,8 @@ class C13(Prop):
             return [{"op": "parse_nvra_enum", "args": a}]
         if case["op"] == "int":
             return [{"op": "py_int_digits", "args": a}]
+        if case["op"] == "purity":      # the model is a pure function: its single answer must be the FIRST real answer
+            return [{"op": "parse_nvra" if a["fn"] == "parse_nvra" else "check_nevra", "args": {"s": a["s"]}}]
         s = fmt(a) if case["op"] == "parse" else a["s"]
         if len(s) > 1500 and self._tier != "thorough":
             return []          # the list-of-successes model is quadratic in Lean on very long inputs: thorough tier only
@@ -269,7 +341,7 @@ class C13(Prop):
             self._enum[("model", checklib.key_of(case))] = o
             n = len(case["args"]["alphabet"]) ** case["args"]["n"]
             return {"strings": n, "parsed": len(o), "digest": hashlib.sha1(json.dumps(o, sort_keys=True).encode()).hexdigest()}
-        if case["op"] == "int":
+        if case["op"] in ("int", "purity"):
             return o
         return dict(o, check=outs[1])
 
@@ -285,6 +357,8 @@ class C13(Prop):
                     "model": dict((s, m.get(s, {"err": "ValueError"})) for s in diff)}
         if case["op"] == "int":
             return Prop.compare(self, case, real_out, model_out)
+        if case["op"] == "purity":
+            return Prop.compare(self, case, real_out["first"], model_out)
         r = dict((k, real_out.get(k)) for k in ("parse", "canon", "reparse", "check"))
         return Prop.compare(self, case, r, model_out)
 
@@ -308,6 +382,16 @@ class C13(Prop):
                         return f
             return None
         if case["op"] == "int":
+            return None
+        if case["op"] == "purity":
+            if real_out["second"] != real_out["first"]:
+                return {"observed": {"function": a["fn"], "argument": a["s"], "first call": real_out["first"],
+                                     "same call after the caller edited the first result": real_out["second"]},
+                        "required": "a call returns the same parts whatever an earlier caller did to an earlier result",
+                        "kind": "result-aliased"}
+            if real_out["shared"]:
+                return {"observed": {"function": a["fn"], "argument": a["s"], "two calls returned the same dict object": True},
+                        "required": "every call returns a fresh dict", "kind": "result-shared"}
             return None
         if case["op"] == "parse":
             s, want = fmt(a), expected(a)
@@ -333,12 +417,17 @@ class C13(Prop):
             return real_out["parsed"] > 0
         if case["op"] == "int":
             return "ok" in real_out
+        if case["op"] == "purity":
+            return "ok" in real_out["first"]
         return "ok" in real_out["parse"]
 
     def stats(self, case, real_out, dist):
         op = case["op"]
         dist[op] = dist.get(op, 0) + 1
         if op == "int":
+            return
+        if op == "purity":
+            dist["purity:" + case["args"]["fn"]] = dist.get("purity:" + case["args"]["fn"], 0) + 1
             return
         if op == "enum":
             dist["enum_strings"] = dist.get("enum_strings", 0) + real_out["strings"]
@@ -365,6 +454,11 @@ class C13(Prop):
         a = case["args"]
         out = []
         if case["op"] in ("enum", "int"):
+            return out
+        if case["op"] == "purity":
+            for t in ("g-0:2-7.src", "g-2-7.src"):
+                if a["s"] != t and len(t) < len(a["s"]):
+                    out.append({"op": "purity", "args": dict(a, s=t)})
             return out
         if case["op"] == "parse":
             def mk(**kw):
